@@ -208,6 +208,10 @@ pub fn gen_c15(base_seed: u64, batch: &str, run: u64, rng: &mut Rng) -> Scenario
                     continue;
                 }
                 consumed = true;
+                // now and then the owner has switched verification-at-drop off before it hands the mock over
+                if rng.chance(1, 5) {
+                    threads[0].push(Op::NoVerifyInDrop { slot: 0 });
+                }
             }
             threads[0].push(Op::Call { slot: 0, m, x, y, catch: true, fault, keep });
         }
@@ -309,16 +313,61 @@ pub fn check_c15(scn: &Scenario) -> Checked {
                 }
             }
         }
-        for (c, p) in &delegated {
+        for c in res.log.calls.iter().filter(|c| c.parent.is_none() && c.thread == 0) {
             let unique = !matches!(scn.threads[c.op.0 as usize].get(c.op.1 as usize), Some(Op::Call { keep: true, .. }));
             let consuming = matches!(c.m.info().recv, Recv::Val) || (matches!(c.m.info().recv, Recv::Rc | Recv::Arc) && unique);
             let on_original = matches!(scn.threads[c.op.0 as usize].get(c.op.1 as usize), Some(Op::Call { slot: 0, .. }));
-            if !consuming || !on_original || !p.finished {
+            // the user code the call reached (default body or answer function) ran to its end, or there was none
+            let finished = match c.prog.and_then(|i| res.log.progs.iter().find(|p| p.inv == i)) {
+                Some(p) => p.finished,
+                None => true,
+            };
+            if !consuming || !on_original || !finished {
                 continue;
             }
-            // the state at the end of the call: after the last evaluation inside it
-            let Some(last) = res.log.calls.iter().rev().find(|x| x.op == c.op).and_then(|x| x.post.as_ref()) else { continue };
             let failed = matches!(c.outcome, Some(Outcome::MockPanic(_)));
+            let no_verify = res.log.ops.iter().any(|o| {
+                o.thread == 0 && o.index < c.op.1 && matches!(o.result, OpResult::Done) && matches!(scn.threads[0].get(o.index as usize), Some(Op::NoVerifyInDrop { slot: 0 }))
+            });
+            // the state at the end of the call: after the last evaluation inside it
+            let Some(last) = res.log.calls.iter().rev().find(|x| x.op == c.op).and_then(|x| x.post.as_ref()) else {
+                // a by-value method answered with a plain value: nothing is left to look at afterwards.
+                // With verification at drop switched off, and a call that the clauses say cannot fail
+                // (accepted by an unordered pattern whose response is a repeatable value), a mock-induced
+                // panic can only be a verification that should not run
+                if let (true, true, Some(pre)) = (no_verify, failed, &c.pre) {
+                    use crate::model::*;
+                    if pre.errors.is_empty() && flat.mentioned(c.m) && !flat.ordered(c.m) {
+                        if let Some(p) = flat.of_method(c.m).into_iter().find(|p| accepts(p, c.x, c.y)) {
+                            let k = pre.counts_of(p.m).and_then(|v| v.get(p.index).copied()).unwrap_or(0) + 1;
+                            if let Assigned::Seg(i) = assigned_segment(p, k) {
+                                if matches!(p.spec.segs[i].resp, Resp::Returns | Resp::ReturnsDefault) && !seg_single_use(p, i) {
+                                    violations.push(v(
+                                        "C15",
+                                        "consumed-instance-verified-at-the-end-of-the-call",
+                                        format!("{:?}:no_verify_in_drop", c.m),
+                                        format!("{:?}({}) consumed the original after no_verify_in_drop() and is answered with a plain value; the call ended with {:?}", c.m, c.x, c.outcome),
+                                    ));
+                                }
+                            }
+                        }
+                    }
+                }
+                continue;
+            };
+            if no_verify {
+                // no_verify_in_drop() was called on it: the instance ends without any verification; a
+                // mock-induced panic with nothing recorded can only be a verification that should not run
+                if failed && last.errors.is_empty() {
+                    violations.push(v(
+                        "C15",
+                        "consumed-instance-verified-at-the-end-of-the-call",
+                        format!("{:?}:no_verify_in_drop", c.m),
+                        format!("{:?} consumed the original after no_verify_in_drop(); no error was recorded, yet the call ended with {:?}", c.m, c.outcome),
+                    ));
+                }
+                continue;
+            }
             if matches!(c.outcome, Some(Outcome::Value(_)) | Some(Outcome::MockPanic(_))) && expect_fail(last) != failed {
                 violations.push(v(
                     "C15",
